@@ -446,7 +446,11 @@ func runEntry(prog *ssa.Program, byDir map[string]*ssa.Package, e *entry, tier s
 	}
 	cfg := sym.Config{
 		MaxStrLen: 6, Unwind: 16, MaxSteps: 2000000, MaxPaths: 200000, TimeoutMs: 10000, Workers: workers, Backend: backend,
-		Encode:  []string{"github.com/kubewharf/kubegateway", "github.com/kubewharf/apiserver-runtime"},
+		// the repository itself, plus pure helper packages a change to the repository may start calling (executed
+		// from source when no intrinsic intercepts the call; anything else still aborts as an unmodelled callee)
+		Encode: []string{"github.com/kubewharf/kubegateway", "github.com/kubewharf/apiserver-runtime",
+			"k8s.io/apimachinery/pkg/util/sets", "strings", "strconv", "unicode", "unicode/utf8", "bytes", "errors", "path", "math/bits", "sort",
+			"container/list", "container/heap"},
 		Replace: map[string]string{}, Stubs: map[string]bool{}, ZeroGlobals: map[string]bool{}, Merge: map[string]bool{}, Witnesses: 24, Debug: debug, Tier: tier,
 	}
 	budget := 600
